@@ -630,10 +630,30 @@ def Conn.addRecorder (c : Conn) (r : Recorder) : Conn × List Event :=
   | .log l => ({ c with recorders := c.recorders ++ [.log l] }, l.stageConn c.info)
   | .tcr t => ({ c with recorders := c.recorders ++ [.tcr (t.reset false)] }, [])
 
+/-- what an operation hands to wbem_request: the request text and the values of the CIM-XML extension headers
+    (their NAMES are fixed by _imethodcall/_methodcall/_iexportcall) -/
 structure Req where
   data : Str                    -- request_data (str, without XML declaration)
-  headers : List Hdr            -- cimxml_headers
+  isExport : Bool := false      -- _iexportcall: CIMExport/CIMExportMethod instead of CIMOperation/CIMMethod/CIMObject
+  cimMethod : Str := []         -- methodname
+  cimMethodRepr : Str := []
+  cimObject : Str := []         -- get_cimobject_header(namespace | localobject)
+  cimObjectRepr : Str := []
   deriving Repr, Inhabited
+
+def hCIMOperation : Str := "CIMOperation".toList
+def hCIMMethod : Str := "CIMMethod".toList
+def hCIMObject : Str := "CIMObject".toList
+def hCIMExport : Str := "CIMExport".toList
+def hCIMExportMethod : Str := "CIMExportMethod".toList
+
+/-- mirrors the `cimxml_headers` lists of _imethodcall / _methodcall / _iexportcall -/
+def Req.headers (r : Req) : List Hdr :=
+  if r.isExport then
+    [⟨hCIMExport, "MethodRequest".toList, "'MethodRequest'".toList⟩, ⟨hCIMExportMethod, r.cimMethod, r.cimMethodRepr⟩]
+  else
+    [⟨hCIMOperation, "MethodCall".toList, "'MethodCall'".toList⟩, ⟨hCIMMethod, r.cimMethod, r.cimMethodRepr⟩,
+     ⟨hCIMObject, r.cimObject, r.cimObjectRepr⟩]
 
 inductive Transport where
   | raised (e : Raised)         -- session.post raised; already mapped by pywbem_requests_exception
@@ -788,6 +808,41 @@ def runOp (v : Variant) (c : Conn) (b64 : Str → Str) (call : Call) (core : Cor
   | (recs1, ev1, none) =>
     finallyPart v call ev1
       (tryBody v { c with recorders := recs1, stats := c.stats.startTimer call.method } b64 core call.listener)
+
+/-- mirrors WBEMConnection.__init__ as far as the observers are concerned: nothing exchanged yet, no recorders -/
+def Conn.new (info : ConnInfo) (statsEnabled : Bool) : Conn :=
+  { info := info, stats := { enabled := statsEnabled } }
+
+def sameClass : Recorder → Recorder → Bool
+  | .log _, .log _ => true
+  | .tcr _, .tcr _ => true
+  | _, _ => false
+
+/-- mirrors add_operation_recorder including its check: a second recorder of the same class is refused -/
+def Conn.addRecorderChecked (c : Conn) (r : Recorder) : Except Exc (Conn × List Event) :=
+  if c.recorders.any (sameClass r) then throw (.py .valueError) else pure (c.addRecorder r)
+
+/-- the recorders added one after the other (events of stage_wbem_connection dropped) -/
+def Conn.addRecorders (c : Conn) : List Recorder → Conn
+  | [] => c
+  | r :: rs => Conn.addRecorders (c.addRecorder r).1 rs
+
+/-- mirrors the setter of WBEMConnection.operation_recorder_enabled: all recorders at once -/
+def Conn.setRecordersEnabled (c : Conn) (b : Bool) : Conn :=
+  { c with recorders := c.recorders.map (fun r => match r with
+      | .log l => .log { l with enabled := b }
+      | .tcr t => .tcr { t with enabled := b }) }
+
+/-- what one operation does to (last_raw_request, last_raw_reply, last_reply_len): nothing when the request could
+    not even be built; otherwise the request text, and the reply bytes exactly when wbem_request returned them -/
+def bookStep (creds : Creds) (b64 : Str → Str) (prev : Option Str × Option Bytes × Nat) (p : Call × Core) :
+    Option Str × Option Bytes × Nat :=
+  match p.2.prep with
+  | .error _ => prev
+  | .ok req =>
+    match (wbemRequest Variant.fixed [] creds b64 p.2 req p.1.listener).result with
+    | .ok q => (some req.data, some q.1, q.1.length)
+    | .error _ => (some req.data, none, 0)
 
 /-- the outcomes of a whole history of operations on one connection (state carried from one to the next) -/
 def runOps (v : Variant) (c : Conn) (b64 : Str → Str) : List (Call × Core) → List Outcome
